@@ -13,7 +13,9 @@ handler runs | a stream finishes).  Neither knows the other.  This file puts the
   `destroyBegin` (program counter `connected`: the poll / read loop), and only while that stream has not finished
   (after EOF the stream is closed and never polled again); stderr streams exist only with `-s`;
 * `W i.destroyBegin` (the worker leaves the loop: `while (xpfds[0].fd >= 0 || xpfds[1].fd >= 0)` is over) is
-  possible only when every polled stream of `i` has finished.
+  possible only when every polled stream of `i` has finished -- or when there are no streams because
+  `rcmd_connect` failed (`cfail i`: `a->rcmd->fd == -1`, the loop is skipped; possible only before any event of
+  `i`'s streams, and none can follow).
 
 State = the protocol state + the relay events so far, in their global order.  Everything else -- which worker
 moves, which stream gets data when, how the chunks are cut -- is the environment: the theorems quantify over all
@@ -27,8 +29,9 @@ structure St where
   fan : FanG.St
   evs : List (Key × LEv)
   sopt : Bool                       -- `-s`: stderr is a stream of its own
+  nofd : List Nat                   -- targets whose `rcmd_connect` failed: no streams
 
-inductive Label | fan (l : FanG.Label) | ev (k : Key) (e : LEv)
+inductive Label | fan (l : FanG.Label) | ev (k : Key) (e : LEv) | cfail (i : Nat)
 
 def isFinish : LEv → Bool
   | .finish => true
@@ -44,7 +47,8 @@ def chunksOf (evs : List (Key × LEv)) (k : Key) : List Bytes :=
   (evsOf evs k).filterMap fun e => match e with | .feed c => some c | .finish => none
 
 /-- all polled streams of target `i` have finished -/
-def drained (s : St) (i : Nat) : Bool := finished s.evs (i, false) && (!s.sopt || finished s.evs (i, true))
+def drained (s : St) (i : Nat) : Bool :=
+  s.nofd.contains i || (finished s.evs (i, false) && (!s.sopt || finished s.evs (i, true)))
 
 def fanGuard (s : St) : FanG.Label → Bool
   | .w i .destroyBegin => drained s i
@@ -54,11 +58,17 @@ def step (s : St) : Label → Option St
   | .fan l =>
       if fanGuard s l then (FanG.step s.fan l).map fun f => { s with fan := f } else none
   | .ev k e =>
-      if FanG.pc s.fan k.1 = .connected ∧ finished s.evs k = false ∧ (k.2 = true → s.sopt = true) then
+      if FanG.pc s.fan k.1 = .connected ∧ finished s.evs k = false ∧ (k.2 = true → s.sopt = true) ∧
+          s.nofd.contains k.1 = false then
         some { s with evs := s.evs ++ [(k, e)] }
       else none
+  | .cfail i =>
+      if FanG.pc s.fan i = .connected ∧ evsOf s.evs (i, false) = [] ∧ evsOf s.evs (i, true) = [] then
+        some { s with nofd := i :: s.nofd }
+      else none
 
-def init (v : FanG.Variant) (f n : Nat) (sopt : Bool) : St := { fan := FanG.init v f n, evs := [], sopt := sopt }
+def init (v : FanG.Variant) (f n : Nat) (sopt : Bool) : St :=
+  { fan := FanG.init v f n, evs := [], sopt := sopt, nofd := [] }
 
 inductive Exec (s0 : St) : List Label → St → Prop
   | nil : Exec s0 [] s0
@@ -90,21 +100,28 @@ def projLabel : Label → Option FanG.Label
 /-! ## projection onto the protocol -/
 
 theorem step_fan {s s' : St} {l : FanG.Label} (h : step s (.fan l) = some s') :
-    FanG.step s.fan l = some s'.fan ∧ s'.evs = s.evs ∧ s'.sopt = s.sopt ∧ fanGuard s l = true := by
+    FanG.step s.fan l = some s'.fan ∧ s'.evs = s.evs ∧ s'.sopt = s.sopt ∧ fanGuard s l = true ∧ s'.nofd = s.nofd := by
   simp only [step] at h
   split at h
   · rename_i hg
     cases hf : FanG.step s.fan l with
     | none => rw [hf] at h; simp at h
-    | some f => rw [hf] at h; simp at h; subst h; exact ⟨rfl, rfl, rfl, hg⟩
+    | some f => rw [hf] at h; simp at h; subst h; exact ⟨rfl, rfl, rfl, hg, rfl⟩
   · simp at h
 
 theorem step_ev {s s' : St} {k : Key} {e : LEv} (h : step s (.ev k e) = some s') :
     s'.fan = s.fan ∧ s'.evs = s.evs ++ [(k, e)] ∧ s'.sopt = s.sopt ∧
-      FanG.pc s.fan k.1 = .connected ∧ finished s.evs k = false := by
+      FanG.pc s.fan k.1 = .connected ∧ finished s.evs k = false ∧ s'.nofd = s.nofd := by
   simp only [step] at h
   split at h
-  · rename_i hg; simp at h; subst h; exact ⟨rfl, rfl, rfl, hg.1, hg.2.1⟩
+  · rename_i hg; simp at h; subst h; exact ⟨rfl, rfl, rfl, hg.1, hg.2.1, rfl⟩
+  · simp at h
+
+theorem step_cfail {s s' : St} {i : Nat} (h : step s (.cfail i) = some s') :
+    s'.fan = s.fan ∧ s'.evs = s.evs ∧ s'.sopt = s.sopt ∧ s'.nofd = i :: s.nofd := by
+  simp only [step] at h
+  split at h
+  · simp at h; subst h; exact ⟨rfl, rfl, rfl, rfl⟩
   · simp at h
 
 /-- every execution of the composed system is, relay events forgotten, an execution of the protocol LTS: all of
@@ -123,6 +140,9 @@ theorem fan_refinement {v f n sopt} {ls : List Label} {s : St} (he : Exec (init 
     | ev k e =>
       simp only [List.filterMap_cons, projLabel, List.filterMap_nil, List.append_nil]
       rw [(step_ev hs).1]; exact ih
+    | cfail i =>
+      simp only [List.filterMap_cons, projLabel, List.filterMap_nil, List.append_nil]
+      rw [(step_cfail hs).1]; exact ih
 
 /-! ## the shape of a stream's events -/
 
@@ -194,25 +214,41 @@ theorem inv_init (v f n sopt) : Inv (init v f n sopt) := by
 theorem drained_mono {s : St} {k : Key} {e : LEv} (i : Nat) (h : drained s i = true) :
     drained { s with evs := s.evs ++ [(k, e)] } i = true := by
   simp only [drained, Bool.and_eq_true, Bool.or_eq_true, Bool.not_eq_true'] at h ⊢
-  refine ⟨finished_mono _ _ _ _ h.1, ?_⟩
-  rcases h.2 with h2 | h2
-  · exact Or.inl h2
-  · exact Or.inr (finished_mono _ _ _ _ h2)
+  rcases h with h | h
+  · exact Or.inl h
+  · refine Or.inr ⟨finished_mono _ _ _ _ h.1, ?_⟩
+    rcases h.2 with h2 | h2
+    · exact Or.inl h2
+    · exact Or.inr (finished_mono _ _ _ _ h2)
+
+theorem drained_cfail {s : St} {k : Nat} (i : Nat) (h : drained s i = true) :
+    drained { s with nofd := k :: s.nofd } i = true := by
+  simp only [drained, Bool.or_eq_true] at h ⊢
+  rcases h with h | h
+  · left; simp only [List.contains_cons, Bool.or_eq_true]; exact Or.inr h
+  · exact Or.inr h
 
 theorem inv_step {s s' : St} {l : Label} (hfi : FanG.Inv s.fan) (hi : Inv s) (hs : step s l = some s') : Inv s' := by
   cases l with
   | ev k e =>
-    obtain ⟨hf, he, hso, _, hnf⟩ := step_ev hs
+    obtain ⟨hf, he, hso, _, hnf, hno⟩ := step_ev hs
     refine ⟨by rw [he]; exact shape_append hi.shape hnf e, ?_⟩
     intro i hp
     rw [hf] at hp
     have := drained_mono (k := k) (e := e) i (hi.drainedPast i hp)
-    simpa [drained, he, hso] using this
-  | fan fl =>
-    obtain ⟨hf, he, hso, hg⟩ := step_fan hs
+    simpa [drained, he, hso, hno] using this
+  | cfail k =>
+    obtain ⟨hf, he, hso, hno⟩ := step_cfail hs
     refine ⟨by rw [he]; exact hi.shape, ?_⟩
     intro i hp
-    have hdr : drained s' i = drained s i := by simp [drained, he, hso]
+    rw [hf] at hp
+    have := drained_cfail (k := k) i (hi.drainedPast i hp)
+    simpa [drained, he, hso, hno] using this
+  | fan fl =>
+    obtain ⟨hf, he, hso, hg, hno⟩ := step_fan hs
+    refine ⟨by rw [he]; exact hi.shape, ?_⟩
+    intro i hp
+    have hdr : drained s' i = drained s i := by simp [drained, he, hso, hno]
     rw [hdr]
     cases fl with
     | d a =>
@@ -250,11 +286,13 @@ theorem inv_exec {v f n sopt} {ls : List Label} {s : St} (he : Exec (init v f n 
     cases l0 with
     | fan l => rw [(step_fan hs).2.2.1]; exact ih.2
     | ev k e => rw [(step_ev hs).2.2.1]; exact ih.2
+    | cfail i => rw [(step_cfail hs).2.2.1]; exact ih.2
 
-/-- when dsh() has returned, every polled stream of every target has received its chunks and has finished: its
-    events are exactly `feed c₁ … feed cₘ, finish` -/
+/-- when dsh() has returned, every polled stream of every target whose connect succeeded has received its chunks
+    and has finished: its events are exactly `feed c₁ … feed cₘ, finish` -/
 theorem final_streams_complete {v f n sopt} {ls : List Label} {s : St} (he : Exec (init v f n sopt) ls s)
-    (hf : FanG.Final s.fan) (i : Nat) (hi : i < n) (strm : Bool) (hstrm : strm = true → sopt = true) :
+    (hf : FanG.Final s.fan) (i : Nat) (hi : i < n) (hconn : s.nofd.contains i = false)
+    (strm : Bool) (hstrm : strm = true → sopt = true) :
     evsOf s.evs (i, strm) = (chunksOf s.evs (i, strm)).map LEv.feed ++ [LEv.finish] := by
   obtain ⟨hinv, hso⟩ := inv_exec he
   have hfe := fan_refinement he
@@ -265,7 +303,7 @@ theorem final_streams_complete {v f n sopt} {ls : List Label} {s : St} (he : Exe
     revert hout; cases FanG.pc s.fan i <;> simp [FanG.isOut, pastLoop]
   have hdr := hinv.drainedPast i hpast
   have hfin : finished s.evs (i, strm) = true := by
-    simp only [drained, Bool.and_eq_true, Bool.or_eq_true, Bool.not_eq_true'] at hdr
+    simp only [drained, hconn, Bool.false_or, Bool.and_eq_true, Bool.or_eq_true, Bool.not_eq_true'] at hdr
     cases strm with
     | false => exact hdr.1
     | true =>
